@@ -1203,6 +1203,21 @@ def loop_fragment_cases(rnd, n):
                 if bad and rnd.random() < 0.5:
                     body.append("cx q[%d], q[i];" % rnd.randint(lo, max(lo, hi)))
                 L.append("for int i in [%d:%d] { %s }" % (lo, hi, " ".join(body)))
+            elif rnd.random() < 0.4:
+                # an operation on a whole register: one operation per bit (Lang/BroadcastProofs.v)
+                c = rnd.random()
+                if c < 0.3:
+                    L.append("%s q;" % rnd.choice(g1))
+                elif c < 0.45:
+                    L.append("%s(%s) q;" % (rnd.choice(gp), rnd.choice(["0.5", "2"])))
+                elif c < 0.6:
+                    L.append("reset q;")
+                elif c < 0.8:
+                    L.append("barrier q;" if rnd.random() < 0.6 else "barrier q[%d], q[%d];" % tuple(rnd.sample(range(nq), 2)))
+                elif nq == nc or bad:
+                    L.append("c = measure q;")
+                else:
+                    L.append("%s q;" % rnd.choice(g2 if bad else g1))
             else:
                 L.append(op(None, 0, -1))
         out.append(H3 + "\n".join(L) + "\n")
